@@ -30,17 +30,17 @@ CTYPES = {"int": (32, True), "int32_t": (32, True), "uint32_t": (32, False), "in
 _type_re = "|".join(sorted((re.escape(t) for t in CTYPES), key=len, reverse=True))
 
 
-def pyx_source():
-    with open(os.path.join(env.PKG, "cencoding.pyx")) as f:
+def pyx_source(module="cencoding"):
+    with open(os.path.join(env.PKG, module + ".pyx")) as f:
         return f.read()
 
 
-def quoted_pyx_lines():
+def quoted_pyx_lines(module="cencoding"):
     """set of (lineno, stripped text) of pyx lines quoted in the generated C"""
     out = {}
-    with open(env.c_path("cencoding")) as f:
+    with open(env.c_path(module)) as f:
         c = f.read()
-    for m in re.finditer(r'/\* "fastparquet/cencoding\.pyx":(\d+)\n(.*?)\*/', c, re.S):
+    for m in re.finditer(r'/\* "fastparquet/%s\.pyx":(\d+)\n(.*?)\*/' % module, c, re.S):
         ln = int(m.group(1))
         for row in m.group(2).split("\n"):
             mm = re.match(r" \* (.*?)\s*# <<<<<<<<<<<<<<\s*$", row)
@@ -76,7 +76,7 @@ def extract(src, name, cls=None):
                 body.pop()
             # include decorators? not needed
             return i, [b[indent:] for b in body]
-    raise LiftError("function %s%s not found in cencoding.pyx" % ((cls + ".") if cls else "", name))
+    raise LiftError("function %s%s not found in the .pyx" % ((cls + ".") if cls else "", name))
 
 
 def _strip_sig(line):
@@ -117,10 +117,12 @@ IDIOMS = [
 ]
 
 
-def lift(name, cls=None, check_drift=True):
-    """returns (python source, info dict)"""
-    src = pyx_source()
+def lift(name, cls=None, check_drift=True, module="cencoding", pre=(), idioms=()):
+    """returns (python source, info dict).  `pre`: declared (regex, replacement) pairs applied to the raw lines before
+    declarations are parsed; `idioms`: further declared pointer/cast idioms (tried before the common list)"""
+    src = pyx_source(module)
     start, lines = extract(src, name, cls)
+
     # multi-line signature: join until the parentheses balance
     hdr, nh = lines[0], 1
     while hdr.count("(") != hdr.count(")") or not hdr.rstrip().endswith(":"):
@@ -136,7 +138,9 @@ def lift(name, cls=None, check_drift=True):
     block_indent = 0
     body_indent = None
     for k, ln in enumerate(lines[1:], start=1):
-        raw = ln
+        raw = ln                      # the line as written (what the generated C quotes)
+        for rx, rep in pre:
+            ln = re.sub(rx, rep, ln)
         stripped = ln.strip()
         if body_indent is None and stripped and not stripped.startswith('"""'):
             body_indent = len(ln) - len(ln.lstrip())
@@ -201,9 +205,9 @@ def lift(name, cls=None, check_drift=True):
             continue
         out.append(ln)
         if stripped and not stripped.startswith("#") and not stripped.startswith('"""'):
-            used_lines.append((start + k + 1, stripped))
+            used_lines.append((start + k + 1, raw.strip()))
     text = "\n".join(out)
-    for rx, rep in IDIOMS:
+    for rx, rep in list(idioms) + IDIOMS:
         text = re.sub(rx, rep, text)
     if re.search(r"<\s*[\w ]+\*?\s*>", text.split('"""')[-1] if '"""' in text else text):
         bad = re.search(r".*<\s*[\w ]+\*?\s*>.*", text)
@@ -218,7 +222,7 @@ def lift(name, cls=None, check_drift=True):
     ast.fix_missing_locations(tree)
     drift = []
     if check_drift:
-        q = quoted_pyx_lines()
+        q = quoted_pyx_lines(module)
         for ln, txt in used_lines:
             txt0 = txt.split("  #")[0].strip()
             if ln in q:
